@@ -228,7 +228,9 @@ func TestLinMap(t *testing.T) {
 // Hand-written histories with a known verdict: guards against a model that
 // accepts everything (or nothing).
 func TestModelSelfCheck(t *testing.T) {
-	mk := func(g int, call, ret int64, in, out any) rec { return rec{G: g, In: in, Out: out, Call: call, Ret: ret} }
+	mk := func(g int, call, ret int64, in, out any) rec {
+		return rec{G: g, In: in, Out: out, Call: call, Ret: ret}
+	}
 	cases := []struct {
 		name string
 		st   *structure
